@@ -32,6 +32,8 @@ const (
 	// BondDenom is the SDK default used by the default staking/mint genesis.
 	BondDenom  = "stake"
 	ThirdDenom = "uthird"
+	// HugeDenom is held in amounts far above 2^63 (like an 18-decimals voucher).
+	HugeDenom = "ahuge"
 )
 
 var cfgOnce sync.Once
@@ -174,6 +176,7 @@ func DefaultBalance() sdk.Coins {
 		sdk.NewInt64Coin(FeeDenom, 1_000_000_000_000),
 		sdk.NewInt64Coin(BondDenom, 1_000_000_000_000),
 		sdk.NewInt64Coin(ThirdDenom, 1_000_000_000),
+		sdk.NewCoin(HugeDenom, sdk.NewIntFromUint64(1_000_000_000_000_000_000).MulRaw(1_000_000_000_000_000_000)),
 	)
 }
 
